@@ -45,12 +45,22 @@ TYPES = {  # parameter types (cycled), variadic element type, result declaration
     "mixed": (["int", "string", "float64"], "string", ["string", "int", "error"]),
     "rich": (["*V", "[]int", "interface{}"], "interface{}", ["err error", "out *V", "m map[string]int"]),
     "refs": (["S", "map[string]int", "*V"], "int", ["int", "int", "int"]),      # named slice, map, pointer
+    "vals": (["V", "[2]int", "Namer"], "V", ["func() int", "chan int", "[2]int"]),  # struct/array/interface by value; func/chan results
+    "tparam": (["T", "T", "T"], "T", ["T", "T", "T"]),                          # generic interface C[T any], instantiated with int
 }
+PRELUDE = "type V struct{ N int }\n\ntype S []int\n\ntype Namer interface{ Name() int }\n\n"
+
+
+def tinst(cls, decl=False):
+    if cls.get("types") != "tparam":
+        return ""
+    return "[T any]" if decl else "[int]"
 MNAMES = {  # abstract methods (A, B) -> method names of the concrete interface
-    "AB": ("A", "B"),
-    "lower": ("flush", "ping"),
-    "initialism": ("id", "url"),
-    "twins": ("close", "Close"),
+    # (A, B, X): X is a third method, X(p int), whose name sorts between A and B; the histories never call it
+    "AB": ("A", "B", "Ab"),
+    "lower": ("flush", "ping", "gather"),
+    "initialism": ("id", "url", "key"),
+    "twins": ("close", "Close", "cmid"),
 }
 OPT_PKGS = [(k, bool(k & 1), bool(k & 2), bool(k & 4)) for k in range(8)]  # (k, skip-ensure, stub-impl, with-resets)
 
@@ -70,8 +80,12 @@ def iface_src(cid, cls):
         ps.append((names[i] + " " + t).strip())
     rs = rdecls[:s["nres"]]
     res = "" if not rs else (" " + rs[0] if len(rs) == 1 and " " not in rs[0] else " (" + ", ".join(rs) + ")")
-    ma, mb = MNAMES[cls.get("mnames", "AB")]
-    return "type %s interface {\n\t%s(%s)%s\n\t%s(x int) int\n}\n" % (cid, ma, ", ".join(ps), res, mb)
+    ma, mb, mx = MNAMES[cls.get("mnames", "AB")]
+    if cls.get("embed"):
+        # A comes from an embedded interface (the method set is the same; the template gets it from the embedded type)
+        return ("type %sBase%s interface {\n\t%s(%s)%s\n}\n\ntype %s%s interface {\n\t%sBase%s\n\t%s(p int)\n\t%s(x int) int\n}\n"
+                % (cid, tinst(cls, True), ma, ", ".join(ps), res, cid, tinst(cls, True), cid, "[T]" if tinst(cls) else "", mx, mb))
+    return "type %s%s interface {\n\t%s(%s)%s\n\t%s(p int)\n\t%s(x int) int\n}\n" % (cid, tinst(cls, True), ma, ", ".join(ps), res, mx, mb)
 
 
 def choose_classes(ctx, classes, per_shape):
@@ -134,7 +148,7 @@ def build_world(ctx, chosen):
         for c in chosen[sk]:
             n += 1
             ids["C%03d" % n] = c
-    src = "package src\n\ntype V struct{ N int }\n\ntype S []int\n\n" + "".join(iface_src(cid, c) for cid, c in ids.items())
+    src = "package src\n\n" + PRELUDE + "".join(iface_src(cid, c) for cid, c in ids.items())
     # with-resets is read from the FILE-level template data (= the package-level config, mock_matryer.templ:151,160),
     # so the source package exists twice: src (with-resets false) and srcr (with-resets true); one mockery run.
     w = ctx.new_world({"src/src.go": src, "srcr/src.go": src.replace("package src", "package srcr", 1)}, module=MOD, gomod="module %s\n\ngo 1.23\n" % MOD, name="c04world")
@@ -227,7 +241,7 @@ def generate(ctx, w, live):
         for k, skip, stub, resets in OPT_PKGS:
             d = w / "in" / ("i%d" % k)
             d.mkdir(parents=True)
-            (d / "src.go").write_text("package i%d\n\ntype V struct{ N int }\n\ntype S []int\n\n%s" % (k, isrc))
+            (d / "src.go").write_text("package i%d\n\n%s%s" % (k, PRELUDE, isrc))
             td = {"skip-ensure": skip, "stub-impl": stub}
             if resets:
                 td["with-resets"] = True
@@ -237,13 +251,14 @@ def generate(ctx, w, live):
             sh = ["package i%d\n\n// generated by checks/c04.py: access to the (possibly unexported) methods of the in-package mocks\n"
                   "var Shims = map[string]map[string]interface{}{\n" % k]
             for cid, c in inp.items():
-                ma, mb = MNAMES[c["mnames"]]
-                ent = ['"new": func() interface{} { return &Moq%s{} }' % cid,
-                       '"A": (*Moq%s).%s' % (cid, ma), '"B": (*Moq%s).%s' % (cid, mb),
-                       '"ACalls": (*Moq%s).%sCalls' % (cid, ma), '"BCalls": (*Moq%s).%sCalls' % (cid, mb)]
+                ma, mb, mx = MNAMES[c["mnames"]]
+                ty = "Moq%s%s" % (cid, tinst(c))
+                ent = ['"new": func() interface{} { return &%s{} }' % ty,
+                       '"A": (*%s).%s' % (ty, ma), '"B": (*%s).%s' % (ty, mb), '"X": (*%s).%s' % (ty, mx),
+                       '"ACalls": (*%s).%sCalls' % (ty, ma), '"BCalls": (*%s).%sCalls' % (ty, mb), '"XCalls": (*%s).%sCalls' % (ty, mx)]
                 if resets:
-                    ent += ['"ResetACalls": (*Moq%s).Reset%sCalls' % (cid, ma), '"ResetBCalls": (*Moq%s).Reset%sCalls' % (cid, mb),
-                            '"ResetCalls": (*Moq%s).ResetCalls' % cid]
+                    ent += ['"ResetACalls": (*%s).Reset%sCalls' % (ty, ma), '"ResetBCalls": (*%s).Reset%sCalls' % (ty, mb),
+                            '"ResetCalls": (*%s).ResetCalls' % ty]
                 sh.append('\t"%s": {%s},\n' % (cid, ", ".join(ent)))
             sh.append("}\n")
             shims[d / "shim.go"] = "".join(sh)     # written after the run: mockery type-checks the source package
@@ -271,19 +286,19 @@ def write_registry(w, live):
         imp += "".join('\ti%d "%s/in/i%d"\n' % (k, MOD, k) for k, *_ in OPT_PKGS)
     ent = []
     for cid, c in live.items():
-        ma, mb = MNAMES[c.get("mnames", "AB")]
+        ma, mb, mx = MNAMES[c.get("mnames", "AB")]
         for k, *_ in OPT_PKGS:
             if in_package(c):
-                ent.append('\t"o%d/%s": {mk: i%d.Shims["%s"]["new"].(func() interface{}), names: [2]string{"%s", "%s"}, shim: i%d.Shims["%s"]},\n'
-                           % (k, cid, k, cid, ma, mb, k, cid))
+                ent.append('\t"o%d/%s": {mk: i%d.Shims["%s"]["new"].(func() interface{}), names: [3]string{"%s", "%s", "%s"}, shim: i%d.Shims["%s"]},\n'
+                           % (k, cid, k, cid, ma, mb, mx, k, cid))
             else:
-                ent.append('\t"o%d/%s": {mk: func() interface{} { return &o%d.Moq%s{} }, names: [2]string{"%s", "%s"}},\n'
-                           % (k, cid, k, cid, ma, mb))
+                ent.append('\t"o%d/%s": {mk: func() interface{} { return &o%d.Moq%s%s{} }, names: [3]string{"%s", "%s", "%s"}},\n'
+                           % (k, cid, k, cid, tinst(c), ma, mb, mx))
     for cid in multi_classes(live):
         for d in ("x0", "x1", "y0", "y1"):
             for j, _, _ in MULTI_ORDER:
-                ent.append('\t"%s.%d/%s": {mk: func() interface{} { return &%s.Moq%s_%d{} }, names: [2]string{"A", "B"}},\n'
-                           % (d, j, cid, d, cid, j))
+                ent.append('\t"%s.%d/%s": {mk: func() interface{} { return &%s.Moq%s_%d%s{} }, names: [3]string{"A", "B", "Ab"}},\n'
+                           % (d, j, cid, d, cid, j, tinst(live[cid])))
     (w / "drv" / "registry.go").write_text("package main\n\nimport (\n" + imp + ")\n\nvar registry = map[string]entry{\n" + "".join(ent) + "}\n")
 
 
